@@ -29,19 +29,26 @@ NAMES = ["a", "b", "c"]
 def gen_case(rng, maxops=12, rep=4):
     uid = [0]
     live = {}
+    lastspec = {}
     ops = []
     for _ in range(3 + rng.below(maxops - 2)):
         r = rng.below(12)
         if r < 5:
             name = rng.choice(NAMES)
             k = ("sig", name)
-            if k not in live:
+            replaced = k in live and rng.chance(1, 5)
+            if k not in live or replaced:
+                # `replaced`: the object was deleted and re-created under the same name and the controller sees ONE update of the
+                # known key — new UID and creation time; half of the time with the very same tag and revision as before
                 uid[0] += 1
-                live[k] = ("u%03d" % uid[0], rng.choice([1, 1, 2]))
+                live[k] = ("u%03d" % uid[0], rng.choice([1, 1, 2, 3]))
             u, ts = live[k]
             tag = rng.weighted([("t1", 5), ("t2", 3), ("_", 1)])
             rev = rng.weighted([("-", 2), ("10", 2), ("20", 1), ("30", 1)])
             form = rng.weighted([("ok", 8), ("nosigs", 1), ("badts", 1)])
+            if replaced and k in lastspec and rng.chance(1, 2):
+                tag, rev, form = lastspec[k]
+            lastspec[k] = (tag, rev, form)
             ops.append("sig|d|%s|%s|%d|%s|%s|%s" % (name, u, ts, tag, rev, form))
         elif r < 8:
             name = rng.choice(["p", "q"])
